@@ -397,6 +397,17 @@ _MORE6 = {
     "C14": "In some overlap scenarios the property's own goroutine ends with Fatalf while the workers keep signalling.",
     "C17": "Hand-edited fail files (comment lines stripped, blank first line) that now pass or overrun; a child process with 128 file descriptors, no GC and 400 empty fail files in front of a usable one.",
 }
+_MORE7 = {
+    "C03": "Make is also asked for types with defined element/key types ([]Octet, map[Label][]Word, a packet struct); StringOfN is also driven by element generators that yield non-runes (negative values, surrogates, values beyond MaxRune).",
+    "C05": "A quarter of the programs reach their failure sites through 1-4 extra recursive calls, depending on the data (another depth is another call stack, hence another site).",
+    "C06": "A fifth of the histories fail with a message of several lines, some of which look like fail-file data.",
+    "C07": "One state machine in four has two actions whose names differ only in case.",
+    "C09": "A quarter of the skip-pattern runs are made under -short (a fifth of the checks and of the budget of skipped cases).",
+    "C16": "A few scenarios let a flaky property fail twice in one process, so that the second save goes to the name of the first; these are judged on the system-call trace.",
+    "C17": "Family usable-among-others: one usable, still failing file with an other-version copy of the same words before it, a now-passing or garbage file after it, or with unused trailing words; the report must be that file's test case (C01 oracle).",
+}
+for _k, _v in _MORE7.items():
+    _MORE6[_k] = _MORE6.get(_k, "") + " " + _v
 for _k, _v in _MORE6.items():
     _MORE5[_k] = _MORE5.get(_k, "") + " " + _v
 for _k, _v in _MORE5.items():
